@@ -1,10 +1,13 @@
 package main
 
 import (
+	"bytes"
 	"context"
 	"encoding/json"
 	"fmt"
 	"google.golang.org/protobuf/types/known/anypb"
+	"google.golang.org/protobuf/types/known/durationpb"
+	"google.golang.org/protobuf/types/known/wrapperspb"
 	"os"
 	"os/exec"
 	"runtime"
@@ -233,6 +236,83 @@ func init() {
 					if !dyn {
 						d = map[string]interface{}{"cloner": cl.name, "rpc": "unary", "response_empty": rp%2 == 1, "isolated": iso, "destination_overwritten": ow, "error": fmt.Sprint(err)}
 						o.Case("unary_"+cl.name, fmt.Sprintf("Iso %d %s false %s %s", ci, hx.Str("unary"), hx.B(iso), hx.B(ow)), d)
+					}
+				}
+				// ---------- unary calls with messages that have only scalar-looking fields (a bytes field, a type URL
+				// and bytes): nothing of them may be shared either ----------
+				for _, shape := range []string{"BytesValue", "Any"} {
+					mk := func(fill byte) proto.Message {
+						if shape == "BytesValue" {
+							return wrapperspb.Bytes(bytes.Repeat([]byte{fill}, 12))
+						}
+						return &anypb.Any{TypeUrl: "type.googleapis.com/x.Y", Value: bytes.Repeat([]byte{fill}, 12)}
+					}
+					scramble := func(m proto.Message) {
+						switch v := m.(type) {
+						case *wrapperspb.BytesValue:
+							for i := range v.Value {
+								v.Value[i] ^= 0x5a
+							}
+						case *anypb.Any:
+							for i := range v.Value {
+								v.Value[i] ^= 0x5a
+							}
+						}
+					}
+					cached := mk(0x22)
+					cachedSnap := proto.Clone(cached)
+					var hReq proto.Message
+					fd := &grpc.ServiceDesc{ServiceName: "flat.Svc", HandlerType: (*hx.SvcIface)(nil), Methods: []grpc.MethodDesc{{MethodName: "U",
+						Handler: func(srv interface{}, ctx context.Context, dec func(interface{}) error, _ grpc.UnaryServerInterceptor) (interface{}, error) {
+							in := mk(0)
+							if err := dec(in); err != nil {
+								return nil, err
+							}
+							hReq = in
+							scramble(in) // the handler works on its request in place
+							return cached, nil
+						}}}}
+					fch := (&inprocgrpc.Channel{}).WithCloner(cl.mk())
+					fch.RegisterService(fd, &hx.Svc{})
+					req := mk(0x11)
+					reqSnap := proto.Clone(req)
+					out := mk(0x33)
+					err := fch.Invoke(context.Background(), "/flat.Svc/U", req, out)
+					iso, ow := err == nil && hReq != nil, true
+					if iso {
+						iso = proto.Equal(req, reqSnap) // the handler's scrambling did not reach the caller's request
+						ow = proto.Equal(out, cachedSnap)
+						scramble(out) // the caller changes the response it received
+						iso = iso && proto.Equal(cached, cachedSnap)
+					}
+					d := map[string]interface{}{"cloner": cl.name, "rpc": "unary with " + shape + " messages; the handler changes its request in place and returns a cached response", "isolated": iso, "destination_overwritten": ow, "error": fmt.Sprint(err)}
+					o.Case("unary_flat_"+shape+"_"+cl.name, fmt.Sprintf("Iso %d %s false %s %s", ci, hx.Str("unary, "+shape), hx.B(iso), hx.B(ow)), d)
+				}
+				// ---------- a receive whose copy FAILS (a destination of another message type) reports the failure:
+				// "overwritten" or an error, never success with the destination left as it was.  Single-response and
+				// streaming receives.  (Not through the codec cloner: other types' bytes may parse, finding F20.) ----------
+				if ci != 1 {
+					for _, kind := range []string{"CS", "SS"} {
+						wch := (&inprocgrpc.Channel{}).WithCloner(cl.mk())
+						wch.RegisterService(hx.Desc(hx.SvcName), &hx.Svc{Stream: func(k string, ss grpc.ServerStream) error {
+							for ss.RecvMsg(&hx.Msg{}) == nil {
+							}
+							return ss.SendMsg(mkMsg(false))
+						}})
+						ctx, cancel := context.WithTimeout(context.Background(), 3*time.Second)
+						cs, err := wch.NewStream(ctx, hx.StreamDescOf(kind), "/verif.Svc/"+kind)
+						var rerr error
+						dst := durationpb.New(42 * time.Second)
+						if err == nil {
+							cs.SendMsg(&hx.Msg{})
+							cs.CloseSend()
+							rerr = cs.RecvMsg(dst)
+							runtime.KeepAlive(cs)
+						}
+						cancel()
+						ok := err == nil && rerr != nil
+						d := map[string]interface{}{"cloner": cl.name, "rpc": kind + ": the caller receives into a message of another type (google.protobuf.Duration)", "receive_result": fmt.Sprint(rerr), "destination_after": dst.String()}
+						o.Case("receive_into_wrong_type_"+kind+"_"+cl.name, fmt.Sprintf("Iso %d %s false %s true", ci, hx.Str(kind+" receive into another type"), hx.B(ok)), d)
 					}
 				}
 				// ---------- the library must not read the request after a unary call returned ----------
